@@ -602,14 +602,14 @@ Proof.
     [destruct good|]; cbn [fst snd]; unfold same_ledger; simp_sets; repeat split; try lia; try reflexivity.
 Qed.
 
-Lemma uresp_same cf0 s irid len tag gate now :
-  same_ledger s (fst (h_uresp cf0 s irid len tag gate now)) /\
-  forall r, terms r (snd (h_uresp cf0 s irid len tag gate now)) = 0%nat.
+Lemma uresp_same cf0 s irid len tag fb gate now :
+  same_ledger s (fst (h_uresp cf0 s irid len tag fb gate now)) /\
+  forall r, terms r (snd (h_uresp cf0 s irid len tag fb gate now)) = 0%nat.
 Proof.
-  unfold h_uresp. destruct (find_rs irid (rsps s)) as [rs|]; cbn [fst snd];
+  unfold h_uresp, feed. destruct (find_rs irid (rsps s)) as [rs|]; cbn [fst snd];
     [|split; [apply same_ledger_refl|reflexivity]].
   destruct (s_w rs); cbn [fst snd]; [split; [apply same_ledger_refl|reflexivity]|].
-  destruct (max_size cf0 <? len); [|destruct gate as [|[g|g|]]]; cbn [fst snd]; unfold same_ledger; simp_sets;
+  destruct fb; (destruct (max_size cf0 <? len); [|destruct gate as [|[g|g|]]]); cbn [fst snd]; unfold same_ledger; simp_sets;
     repeat split; try lia; try reflexivity.
 Qed.
 
@@ -619,7 +619,17 @@ Proof.
   unfold rsp_gate. destruct (find _ (rsps s)) as [rs|]; cbn [fst snd];
     [|split; [apply same_ledger_refl|reflexivity]].
   destruct (s_w rs) as [[[l t] d]|]; cbn [fst snd]; [|split; [apply same_ledger_refl|reflexivity]].
-  destruct ok; unfold same_ledger; simp_sets; repeat split; try lia; try reflexivity.
+  unfold feed. destruct ok; destruct (s_fb rs); unfold same_ledger; simp_sets; repeat split; try lia; try reflexivity.
+Qed.
+
+Lemma feed_terms r fb irid ok : terms r (feed fb irid ok) = 0%nat.
+Proof. destruct fb; reflexivity. Qed.
+
+Lemma adv_out_terms s now r : terms r (rsp_advance_out s now) = 0%nat.
+Proof.
+  unfold rsp_advance_out. induction (rsps s) as [|a l IH]; [reflexivity|].
+  cbn [flat_map]. rewrite terms_app, IH. destruct (s_w a) as [[[x y] d]|]; [|reflexivity].
+  destruct (d <=? now); [rewrite feed_terms|]; reflexivity.
 Qed.
 
 (* ------------------------------------------------------------------ one step, whole runs *)
@@ -691,7 +701,7 @@ Proof.
   - (* advance *)
     pose proof (advance_Inv s tr (now en + dt) I) as H.
     destruct (fut_advance s (now en + dt)) as [s1 o]. cbn [fst snd] in *.
-    rewrite <- (app_nil_r (tr ++ o)). eapply Inv_same_ledger; [exact H| |reflexivity].
+    rewrite app_assoc. eapply Inv_same_ledger; [exact H| |intros r; apply adv_out_terms].
     unfold rsp_advance, same_ledger. simp_sets. repeat split; try lia; try reflexivity.
   - destruct (conn_of p en); cbn [fst snd]; [|rewrite app_nil_r; exact I].
     pose proof (inopen_same cf0 s p (N.of_nat (length (chans en)))) as [H T].
@@ -704,8 +714,8 @@ Proof.
       pose proof (inread_same s c g l t) as [H T]; destruct (h_inread s c g l t) as [s1 o] end.
     exact (Inv_same_ledger _ _ _ _ I H T).
   - destruct (nth_mod k (hpend en)) as [irid|]; cbn [fst snd]; [|rewrite app_nil_r; exact I].
-    match goal with |- context [h_uresp cf0 s ?a ?b ?c ?d ?e] =>
-      pose proof (uresp_same cf0 s a b c d e) as [H T]; destruct (h_uresp cf0 s a b c d e) as [s1 o] end.
+    match goal with |- context [h_uresp cf0 s ?a ?b ?c ?f ?d ?e] =>
+      pose proof (uresp_same cf0 s a b c f d e) as [H T]; destruct (h_uresp cf0 s a b c f d e) as [s1 o] end.
     exact (Inv_same_ledger _ _ _ _ I H T).
   - destruct (nth_mod k (hpend en)) as [irid|]; cbn [fst snd]; [|rewrite app_nil_r; exact I].
     unfold h_urej. cbn [fst snd]. eapply Inv_same_ledger; [exact I| |reflexivity].
@@ -1039,11 +1049,11 @@ Proof.
     intros r H; cbn in H; repeat destruct H as [H|H]; try discriminate; auto.
 Qed.
 
-Lemma uresp_nosent cf0 s irid len tag gate now : nosent (snd (h_uresp cf0 s irid len tag gate now)).
+Lemma uresp_nosent cf0 s irid len tag fb gate now : nosent (snd (h_uresp cf0 s irid len tag fb gate now)).
 Proof.
-  unfold h_uresp. destruct (find_rs irid (rsps s)) as [rs|]; cbn [fst snd]; [|intros r []].
+  unfold h_uresp, feed. destruct (find_rs irid (rsps s)) as [rs|]; cbn [fst snd]; [|intros r []].
   destruct (s_w rs); cbn [fst snd]; [intros r []|].
-  destruct (max_size cf0 <? len); [|destruct gate as [|[g|g|]]]; cbn [fst snd];
+  destruct fb; (destruct (max_size cf0 <? len); [|destruct gate as [|[g|g|]]]); cbn [fst snd];
     intros r H; cbn in H; repeat destruct H as [H|H]; try discriminate; auto.
 Qed.
 
@@ -1051,7 +1061,14 @@ Lemma rsp_gate_nosent s c ok : nosent (snd (rsp_gate s c ok)).
 Proof.
   unfold rsp_gate. destruct (find _ (rsps s)) as [rs|]; cbn [fst snd]; [|intros r []].
   destruct (s_w rs) as [[[l t] d]|]; cbn [fst snd]; [|intros r []].
-  destruct ok; intros r H; cbn in H; repeat destruct H as [H|H]; try discriminate; auto.
+  unfold feed. destruct ok; destruct (s_fb rs); intros r H; cbn in H; repeat destruct H as [H|H]; try discriminate; auto.
+Qed.
+
+Lemma adv_out_nosent s now : nosent (rsp_advance_out s now).
+Proof.
+  unfold rsp_advance_out. intros r H. apply in_flat_map in H. destruct H as [a [_ H]].
+  destruct (s_w a) as [[[x y] d]|]; [|destruct H]. destruct (d <=? now); [|destruct H].
+  unfold feed in H. destruct (s_fb a); [|destruct H]. destruct H as [H|[]]. discriminate.
 Qed.
 
 Definition cs_step (cs : list N) (e : ev) : list N :=
@@ -1126,7 +1143,7 @@ Proof.
   - assert (Hne : RErr E_TIMEOUT <> RErr E_CANCELED) by discriminate.
     pose proof (complete_all_Keeps cs (filter (fun f => f_dl f <=? now en + dt) (futs s)) s _ Hne) as H.
     unfold fut_advance. destruct (complete_all _ _ _) as [s1 o]. cbn [fst snd] in *.
-    apply Keeps_app_nil. eapply Keeps_trans; [exact H|]. apply Keeps_same; [|intros r []].
+    eapply Keeps_trans; [exact H|]. apply Keeps_same; [|apply adv_out_nosent].
     unfold rsp_advance, same_ledger. simp_sets. repeat split; try lia; try reflexivity.
   - destruct (conn_of p en); cbn [fst snd]; [|apply Keeps_refl].
     pose proof (inopen_same cf0 s p (N.of_nat (length (chans en)))) as [H T].
@@ -1140,9 +1157,9 @@ Proof.
       destruct (h_inread s c g l t) as [s1 o] end.
     exact (Keeps_same cs _ _ _ H Hn).
   - destruct (nth_mod k (hpend en)) as [irid|]; cbn [fst snd]; [|apply Keeps_refl].
-    match goal with |- context [h_uresp cf0 s ?a ?b ?c ?d ?e] =>
-      pose proof (uresp_same cf0 s a b c d e) as [H _]; pose proof (uresp_nosent cf0 s a b c d e) as Hn;
-      destruct (h_uresp cf0 s a b c d e) as [s1 o] end.
+    match goal with |- context [h_uresp cf0 s ?a ?b ?c ?f ?d ?e] =>
+      pose proof (uresp_same cf0 s a b c f d e) as [H _]; pose proof (uresp_nosent cf0 s a b c f d e) as Hn;
+      destruct (h_uresp cf0 s a b c f d e) as [s1 o] end.
     exact (Keeps_same cs _ _ _ H Hn).
   - destruct (nth_mod k (hpend en)) as [irid|]; cbn [fst snd]; [|apply Keeps_refl].
     unfold h_urej. cbn [fst snd]. apply Keeps_same; [|intros r []].
@@ -1296,12 +1313,12 @@ Proof.
     unfold inbound_load, drop_rd in *; simp_sets; rewrite ?app_length; cbn [length]; lia.
 Qed.
 
-Lemma uresp_load cf0 s irid len tag gate now : load_ok cf0 s -> load_ok cf0 (fst (h_uresp cf0 s irid len tag gate now)).
+Lemma uresp_load cf0 s irid len tag fb gate now : load_ok cf0 s -> load_ok cf0 (fst (h_uresp cf0 s irid len tag fb gate now)).
 Proof.
-  unfold h_uresp. destruct (find_rs irid (rsps s)) as [rs|]; cbn [fst]; [|auto].
+  unfold h_uresp, feed. destruct (find_rs irid (rsps s)) as [rs|]; cbn [fst]; [|auto].
   destruct (s_w rs); cbn [fst]; [auto|]. apply load_le.
   pose proof (filter_len (fun r => negb (s_irid r =? irid)) (rsps s)).
-  destruct (max_size cf0 <? len); [|destruct gate as [|[g|g|]]]; cbn [fst]; unfold inbound_load, drop_rs in *; simp_sets;
+  destruct fb; (destruct (max_size cf0 <? len); [|destruct gate as [|[g|g|]]]); cbn [fst]; unfold inbound_load, drop_rs in *; simp_sets;
     rewrite ?map_length; lia.
 Qed.
 
@@ -1379,8 +1396,8 @@ Proof.
     match goal with |- context [h_inread s ?c ?g ?l ?t] =>
       pose proof (inread_load cf0 s c g l t L) as H; destruct (h_inread s c g l t) as [s1 o] end. exact H.
   - destruct (nth_mod k (hpend en)) as [irid|]; cbn [fst]; [|exact L].
-    match goal with |- context [h_uresp cf0 s ?a ?b ?c ?d ?e] =>
-      pose proof (uresp_load cf0 s a b c d e L) as H; destruct (h_uresp cf0 s a b c d e) as [s1 o] end. exact H.
+    match goal with |- context [h_uresp cf0 s ?a ?b ?c ?f ?d ?e] =>
+      pose proof (uresp_load cf0 s a b c f d e L) as H; destruct (h_uresp cf0 s a b c f d e) as [s1 o] end. exact H.
   - destruct (nth_mod k (hpend en)) as [irid|]; cbn [fst]; [|exact L].
     unfold h_urej. cbn [fst]. apply (load_le cf0 s); [|exact L].
     unfold inbound_load, drop_rs. simp_sets. pose proof (filter_len (fun r => negb (s_irid r =? irid)) (rsps s)). lia.
@@ -1765,8 +1782,8 @@ Proof.
       pose proof (inread_same s c g l t) as [H _]; destruct (h_inread s c g l t) as [s1 o] end.
     exact (Inv3_same_ledger _ _ I3 H).
   - destruct (nth_mod k (hpend en)) as [irid|]; cbn [fst]; [|exact I3].
-    match goal with |- context [h_uresp cf0 s ?a ?b ?c ?d ?e] =>
-      pose proof (uresp_same cf0 s a b c d e) as [H _]; destruct (h_uresp cf0 s a b c d e) as [s1 o] end.
+    match goal with |- context [h_uresp cf0 s ?a ?b ?c ?f ?d ?e] =>
+      pose proof (uresp_same cf0 s a b c f d e) as [H _]; destruct (h_uresp cf0 s a b c f d e) as [s1 o] end.
     exact (Inv3_same_ledger _ _ I3 H).
   - destruct (nth_mod k (hpend en)) as [irid|]; cbn [fst]; [|exact I3].
     unfold h_urej. cbn [fst]. apply (Inv3_same_ledger s); [exact I3|].
@@ -1806,7 +1823,7 @@ Qed.
 
 (* plain = neither ResponseReceived, RequestReceived nor the binding ghost *)
 Definition plain (x : out) : bool :=
-  match x with OSent _ | OFail _ _ | OWire _ _ _ => true | _ => false end.
+  match x with OSent _ | OFail _ _ | OWire _ _ _ | OFeed _ _ => true | _ => false end.
 Definition plainl (o : list out) : Prop := forallb plain o = true.
 
 Lemma plainl_nil : plainl [].
@@ -1891,23 +1908,30 @@ Proof.
   destruct (f_wait f); [apply complete_err_plain|reflexivity].
 Qed.
 
-Lemma uresp_plain cf0 s irid len tag gate now : plainl (snd (h_uresp cf0 s irid len tag gate now)).
+Lemma uresp_plain cf0 s irid len tag fb gate now : plainl (snd (h_uresp cf0 s irid len tag fb gate now)).
 Proof.
-  unfold h_uresp. destruct (find_rs irid (rsps s)) as [rs|]; [|reflexivity].
-  destruct (s_w rs); [reflexivity|]. destruct (max_size cf0 <? len); [reflexivity|].
+  unfold h_uresp, feed. destruct (find_rs irid (rsps s)) as [rs|]; [|reflexivity].
+  destruct (s_w rs); [reflexivity|]. destruct fb; (destruct (max_size cf0 <? len); [reflexivity|]);
   destruct gate as [|[g|g|]]; reflexivity.
 Qed.
 
 Lemma rsp_gate_plain s c ok : plainl (snd (rsp_gate s c ok)).
 Proof.
   unfold rsp_gate. destruct (find _ (rsps s)) as [rs|]; [|reflexivity].
-  destruct (s_w rs) as [[[l t] d]|]; [|reflexivity]. destruct ok; reflexivity.
+  destruct (s_w rs) as [[[l t] d]|]; [|reflexivity]. unfold feed. destruct ok; destruct (s_fb rs); reflexivity.
 Qed.
 
 Lemma inread_bad_plain s c len tag : plainl (snd (h_inread s c false len tag)).
 Proof.
   unfold h_inread. destruct (find_rd c (rdrs s)) as [rd|]; [|reflexivity].
   destruct (_ && _); reflexivity.
+Qed.
+
+Lemma adv_out_plain s now : plainl (rsp_advance_out s now).
+Proof.
+  unfold rsp_advance_out, plainl. induction (rsps s) as [|a l IH]; [reflexivity|].
+  cbn [flat_map]. rewrite forallb_app, IH, andb_true_r. destruct (s_w a) as [[[x y] d]|]; [|reflexivity].
+  destruct (d <=? now); [|reflexivity]. unfold feed. destruct (s_fb a); reflexivity.
 Qed.
 
 (* a delivered response: exactly the verdict of the future that holds the carrier *)
@@ -2070,13 +2094,13 @@ Qed.
 Lemma same_ledger_Q s s' o : same_ledger s s' -> calml o -> rdrs s' = rdrs s -> Q s s' o.
 Proof. intros (_ & _ & _ & F & _) C R. split; [|split]; [exact C|apply FutsPrev_same; exact F|exact R]. Qed.
 
-Lemma uresp_rdrs cf0 s irid len tag gate now : rdrs (fst (h_uresp cf0 s irid len tag gate now)) = rdrs s.
-Proof. unfold h_uresp. futs_crush. Qed.
+Lemma uresp_rdrs cf0 s irid len tag fb gate now : rdrs (fst (h_uresp cf0 s irid len tag fb gate now)) = rdrs s.
+Proof. unfold h_uresp, feed. futs_crush. Qed.
 Lemma rsp_gate_rdrs s c ok : rdrs (fst (rsp_gate s c ok)) = rdrs s.
 Proof. unfold rsp_gate. futs_crush. Qed.
 
-Lemma uresp_Q cf0 s irid len tag gate now :
-  Q s (fst (h_uresp cf0 s irid len tag gate now)) (snd (h_uresp cf0 s irid len tag gate now)).
+Lemma uresp_Q cf0 s irid len tag fb gate now :
+  Q s (fst (h_uresp cf0 s irid len tag fb gate now)) (snd (h_uresp cf0 s irid len tag fb gate now)).
 Proof. apply same_ledger_Q; [apply uresp_same|apply plain_calm, uresp_plain|apply uresp_rdrs]. Qed.
 Lemma rsp_gate_Q s c ok : Q s (fst (rsp_gate s c ok)) (snd (rsp_gate s c ok)).
 Proof. apply same_ledger_Q; [apply rsp_gate_same|apply plain_calm, rsp_gate_plain|apply rsp_gate_rdrs]. Qed.
@@ -2266,7 +2290,7 @@ Proof.
     pose proof (advance_Q s (now en + dt)) as H.
     destruct (fut_advance s (now en + dt)) as [s1 o]. cbn [fst snd] in *.
     apply Q_facts; [|unfold nch; cbn [chans]; lia].
-    destruct H as (A & B & C). split; [exact A|split; [exact B|exact C]].
+    destruct H as (A & B & C). split; [apply calml_app; [exact A|apply plain_calm, adv_out_plain]|split; [exact B|exact C]].
   - (* inbound substream *)
     destruct (conn_of p en); cbn [fst snd]; [|apply Q_facts; [apply Q_refl|lia]].
     pose proof (inopen_shape cf0 s p (N.of_nat (length (chans en)))) as (O & F & R).
@@ -2308,8 +2332,8 @@ Proof.
       * intros rd' H'. rewrite R in H'. unfold drop_rd in H'. apply filter_In in H'. destruct H' as [_ H'].
         intros E'. rewrite E', N.eqb_refl in H'. discriminate.
   - destruct (nth_mod k (hpend en)) as [irid|]; cbn [fst snd]; [|apply Q_facts; [apply Q_refl|lia]].
-    match goal with |- context [h_uresp cf0 s ?a ?b ?c ?d ?e] =>
-      pose proof (uresp_Q cf0 s a b c d e) as H; destruct (h_uresp cf0 s a b c d e) as [s1 o] end. cbn [fst snd] in *.
+    match goal with |- context [h_uresp cf0 s ?a ?b ?c ?f ?d ?e] =>
+      pose proof (uresp_Q cf0 s a b c f d e) as H; destruct (h_uresp cf0 s a b c f d e) as [s1 o] end. cbn [fst snd] in *.
     apply Q_facts; [exact H|unfold nch; cbn [chans]; lia].
   - destruct (nth_mod k (hpend en)) as [irid|]; cbn [fst snd]; [|apply Q_facts; [apply Q_refl|lia]].
     unfold h_urej. cbn [fst snd]. apply Q_facts; [|unfold nch; cbn [chans]; lia].
@@ -2387,7 +2411,8 @@ Proof.
     + pose proof (inread_bad_plain s (k mod N.of_nat (length (ch0 :: chs))) 0 0) as P.
       destruct (h_inread _ _ _ _ _) as [s1 o]. exact P.
   - left. pose proof (advance_plain s (now en + dt)) as H.
-    destruct (fut_advance s (now en + dt)) as [s1 o]. exact H.
+    destruct (fut_advance s (now en + dt)) as [s1 o]. cbn [fst snd] in *.
+    apply plainl_app; [exact H|apply adv_out_plain].
   - left. destruct (conn_of p en); cbn [fst snd]; [|reflexivity].
     pose proof (inopen_shape cf0 s p (N.of_nat (length (chans en)))) as (O & _).
     destruct (h_inopen _ _ _ _) as [s1 o]. cbn [fst snd] in *. subst o. reflexivity.
@@ -2402,8 +2427,8 @@ Proof.
     + pose proof (inread_bad_plain s (k mod N.of_nat (length (ch0 :: chs))) len tag) as P.
       destruct (h_inread _ _ _ _ _) as [s1 o]. left. exact P.
   - left. destruct (nth_mod k (hpend en)) as [irid|]; cbn [fst snd]; [|reflexivity].
-    match goal with |- context [h_uresp cf0 s ?a ?b ?c ?d ?e] =>
-      pose proof (uresp_plain cf0 s a b c d e) as H; destruct (h_uresp cf0 s a b c d e) as [s1 o] end. exact H.
+    match goal with |- context [h_uresp cf0 s ?a ?b ?c ?f ?d ?e] =>
+      pose proof (uresp_plain cf0 s a b c f d e) as H; destruct (h_uresp cf0 s a b c f d e) as [s1 o] end. exact H.
   - left. destruct (nth_mod k (hpend en)) as [irid|]; cbn [fst snd]; reflexivity.
   - left. reflexivity.
 Qed.
@@ -2762,8 +2787,8 @@ Proof.
       pose proof (inread_same s c g l t) as [H _]; destruct (h_inread s c g l t) as [s1 o] end.
     exact (Keep3_DP _ _ (same_ledger_Keep3 _ _ H)).
   - destruct (nth_mod k (hpend en)) as [irid|]; cbn [fst]; [|apply Keep3_DP, Keep3_refl].
-    match goal with |- context [h_uresp cf0 s ?a ?b ?c ?d ?e] =>
-      pose proof (uresp_same cf0 s a b c d e) as [H _]; destruct (h_uresp cf0 s a b c d e) as [s1 o] end.
+    match goal with |- context [h_uresp cf0 s ?a ?b ?c ?f ?d ?e] =>
+      pose proof (uresp_same cf0 s a b c f d e) as [H _]; destruct (h_uresp cf0 s a b c f d e) as [s1 o] end.
     exact (Keep3_DP _ _ (same_ledger_Keep3 _ _ H)).
   - destruct (nth_mod k (hpend en)) as [irid|]; cbn [fst]; [|apply Keep3_DP, Keep3_refl].
     unfold h_urej. cbn [fst]. apply Keep3_DP. repeat split; cbn; lia.
